@@ -27,3 +27,14 @@ func VerifC04DeriveICMP(priv *[32]byte, pub, remote [32]byte, requestID uint64) 
 func VerifC04DeriveResponder(requestID uint64, remote [crypto.KeySize]byte) (*crypto.SessionKey, [crypto.KeySize]byte, error) {
 	return deriveResponderSessionKey(requestID, remote)
 }
+
+// VerifC04StreamKeys returns the key bytes of every live stream's session key, by local stream id.
+func VerifC04StreamKeys(a *Agent) map[uint64][crypto.KeySize]byte {
+	out := map[uint64][crypto.KeySize]byte{}
+	for _, s := range a.streamMgr.GetAllStreams() {
+		if k := s.GetSessionKey(); k != nil {
+			out[s.ID] = k.Key()
+		}
+	}
+	return out
+}
